@@ -178,8 +178,13 @@ def build():
                 other = spec_state(ex, 1, SID_OTHER)
                 _domain(ctx, ex, instr, m, hw)
                 out = _attempt_cmd(ctx, ex, instr)
+                choice = None
+                if m == "qalloc" and out[0] == "ret":
+                    # the physical qubit the implementation took (any unused one is right; the semantics check that it was unused)
+                    got = ctx.index(ex._qubit_unit_modules[0], _optval(ctx, ctx.call(ex._get_register, 0, instr.reg)))
+                    choice = None if ctx.truth(ctx.is_none(got)) else _optval(ctx, got)
                 try:
-                    ctx.call(isa.step, spec, instr, hw, ex.outcome)
+                    ctx.call(isa.step, spec, instr, hw, ex.outcome, choice)
                     fault = None
                 except Raised as r:
                     if not isinstance(r.e, isa.Fault):
@@ -322,6 +327,38 @@ def build():
             return
         if out[0] == "ret":
             check_views_equal(ctx, view(ex, 0, SID), spec, prefix="sub-behaves-like-add/")
+    class _Pre(M.SymSet):
+        def __init__(self, bits):
+            M.SymSet.__init__(self, "pre", list(bits), dict(bits))
+
+    def alloc_finite(ctx):
+        """_get_unused_physical_qubit over a finite universe of physical ids (all 256 in-use sets at once): returns an id
+        that was not in use and marks exactly that one.  (The general case is the loop contract above; this obligation
+        any unused id is accepted; keeps an implementation that computes the id differently -- e.g. from the SIZE of the set -- decidable.)"""
+        ex = new_executor(ctx, apps=(0,))
+        U = list(range(8))
+        if ctx.symbolic:
+            used = M.SymSet("U", U + [8])
+            used.bits[8] = z3.BoolVal(False)
+            pre = dict(used.bits)
+        else:
+            used = set(u for u in U if ctx.bool(f"used{u}"))
+            pre = set(used)
+        ex._used_physical_qubit_addresses = used
+        p = ctx.call(ex._get_unused_physical_qubit)
+
+        def was(u):
+            return (mk_bool(pre[u]) if ctx.symbolic else (u in pre)) if u in U else False
+        U9 = U + [8]
+
+        def now(u):
+            return ctx.call(lambda: None) if False else (M.contains(ctx.it, used, u) if ctx.symbolic else (u in used))
+        ctx.check("alloc: returns a physical id that was not in use", ctx.and_(ctx.ge(p, 0), ctx.not_(M.contains(ctx.it, _Pre(pre), p) if ctx.symbolic else (p in pre))))
+        want = next((u for u in U9 if ctx.truth(ctx.eq(p, u))), None)
+        if want is not None:
+            ctx.check("alloc: marks exactly that id", ctx.truth(now(want)) and all(ctx.truth(ctx.eq(now(u), was(u))) for u in U9 if u != want))
+    R.add("alloc[_get_unused_physical_qubit, finite universe]", kind="lia", samples=60)(alloc_finite)
+
     R.canary("sub-is-not-add", kind="lia", samples=40)(canary)
     return R
 
